@@ -372,6 +372,22 @@ func (hs *clientHandshakeStateGM) doFullHandshake() error {
 			return fmt.Errorf("tls: client certificate private key of type %T does not implement crypto.Signer", chainToSend.PrivateKey)
 		}
 
+		// CertificateVerify is an SM2 signature, made with nil SignerOpts. Certificates from
+		// Config.Certificates were filtered for SM2 keys in getCertificate, the one returned by
+		// GetClientCertificate was not: refuse any other key (an RSA key dereferences the nil
+		// options and panics).
+		switch pub := key.Public().(type) {
+		case *sm2.PublicKey:
+		case *ecdsa.PublicKey:
+			if pub.Curve != sm2.P256Sm2() {
+				c.sendAlert(alertInternalError)
+				return errors.New("tls: the GMSSL client certificate needs an SM2 key, not an ECDSA key on another curve")
+			}
+		default:
+			c.sendAlert(alertInternalError)
+			return fmt.Errorf("tls: the GMSSL client certificate needs an SM2 key, not %T", pub)
+		}
+
 		digest := hs.finishedHash.client.Sum(nil)
 
 		certVerify.signature, err = key.Sign(c.config.rand(), digest, nil)
